@@ -11,7 +11,7 @@ import zoneinfo
 from checks import oracles as O
 from checks import oracles_reg as R
 from checks.common import result
-from checks.history import gen_history
+from checks.history import gen_history, stress_stale_check
 from model import machine, worldgen
 
 ZONES = ["UTC", "America/New_York", "Europe/London", "Asia/Tokyo", "Asia/Kolkata", "Australia/Lord_Howe",
@@ -113,6 +113,11 @@ def generate(prop, seed, tier):
             fr = ["zone", zname]
         variants.append(dict(tz=tz, renders=renders, fresh_render=fr))
     desc["variants"] = variants
+    if rng.random() < 0.35:
+        # conversions of the times happen inside the multi-threaded stale check: stress that phase in the variant runs
+        if not any(op["op"] == "fresh" for op in desc["ops"]) and rng.random() < 0.7:
+            desc["ops"].insert(len(desc["ops"]) - 1, dict(op="fresh"))
+        stress_stale_check(desc, rng)
     # the history prefix runs with aware-utc everywhere (any legal form would do)
     for op in desc["ops"]:
         if op["op"] == "run":
